@@ -528,7 +528,7 @@ def check_batch(ctx: Ctx, name, recs, origin):
     fingerprints differ (float rounding after mean / Fourier resampling, or a real difference)
     are re-evaluated with everything printed and compared value by value with the tolerances"""
     exprs = [M.seq_expr(r["ops"], r["fr"], "run_hash") for r in recs]
-    vals = ctx.coq_eval(name, M.PRE, exprs, shard=max(8, min(100, len(exprs) // 32 + 1)))
+    vals = ctx.coq_eval(name, M.PRE, exprs, shard=max(8, min(100, len(exprs) // 16 + 1)))
     slow = [rec for rec, h in zip(recs, vals) if M.record_hash(rec) != h]
     ctx.cov["traces_validated_against_impl"] += len(recs)
     ctx.dist("compare/exact-fingerprint", len(recs) - len(slow))
@@ -616,11 +616,11 @@ def run(ctx: Ctx):
         ctx.log("corpus: %d sequences, %d disagreements" % (len(recs), nd))
 
     # 2. bounded-exhaustive: every sequence of `depth` alphabet operations after a seed
-    #    quick:    depth 2 over the 30-operation alphabet on the 3-D seed, every 3rd one on the 4-D seed
+    #    quick:    depth 2 over the 30-operation alphabet on the 3-D seed, every 5th one on the 4-D seed
     #    thorough: depth 3 over the 30-operation alphabet on the 3-D seed (27 000 sequences) and
     #              depth 2 over the full 43-operation alphabet on three seeds
     if ctx.quick:
-        plans = [(2, alphabet(False), SEEDS[0], 1), (2, alphabet(False), SEEDS[1], 3)]
+        plans = [(2, alphabet(False), SEEDS[0], 1), (2, alphabet(False), SEEDS[1], 5)]
     else:
         plans = [(3, alphabet(False), SEEDS[0], 1)] + [(2, alphabet(True), sd, 1) for sd in SEEDS[:3]]
     n_exh = nd = 0
@@ -657,7 +657,7 @@ def run(ctx: Ctx):
         n_exh, nd))
 
     # 3. random histories
-    nseq = ctx.budget(160, 5000)
+    nseq = ctx.budget(120, 5000)
     recs = []
     for i in range(nseq):
         depth_r = r.choice([12, 12, 12, 8, 5])
